@@ -91,6 +91,19 @@ def link(src, dst, pos, j):
         raise ValueError(pos)
 
 
+NAMES = None  # optional naming scheme (default C0, C1, ...)
+
+
+def order_ok_named(n, edges, roots, pos_of, names):
+    """same spec with class names that are substrings of each other"""
+    global NAMES
+    NAMES = list(names)
+    try:
+        return order_ok(n, edges, roots, pos_of)
+    finally:
+        NAMES = None
+
+
 def order_ok(n, edges, roots, pos_of):
     """edges: dict (i, j) -> bool ; roots: list of bool ; pos_of(i, j) -> position name.
     The graph is the only symbolic input: each flag is realised (solver-forked), after which the
@@ -110,7 +123,8 @@ def order_ok(n, edges, roots, pos_of):
 def _order_ok(n, edges, roots, pos_of):
     from vf.common import Object, orderer, SchemaParseError
 
-    classes = [Object.inline("C%d" % i) for i in range(n)]
+    names = NAMES or ["C%d" % i for i in range(n)]
+    classes = [Object.inline(names[i]) for i in range(n)]
     adj = [[bool(edges.get((i, j), False)) for j in range(n)] for i in range(n)]
     for i in range(n):
         for j in range(n):
@@ -137,22 +151,22 @@ def _order_ok(n, edges, roots, pos_of):
         return cyclic
     if cyclic:
         return False
-    names = [c.__name__ for c in out]
-    expected = ["C%d" % i for i in range(n) if reach[i]]
-    if len(names) != len(expected):
+    got = [c.__name__ for c in out]
+    expected = [names[i] for i in range(n) if reach[i]]
+    if len(got) != len(expected):
         return False
     for e in expected:
-        if names.count(e) != 1:
+        if got.count(e) != 1:
             return False
     for k, c in enumerate(out):
-        if c is not classes[int(c.__name__[1:])]:
+        if c is not classes[names.index(c.__name__)]:
             return False
-    index = {name: k for k, name in enumerate(names)}
+    index = {name: k for k, name in enumerate(got)}
     for i in range(n):
         if not reach[i]:
             continue
         for j in range(n):
-            if adj[i][j] and not index["C%d" % j] < index["C%d" % i]:
+            if adj[i][j] and not index[names[j]] < index[names[i]]:
                 return False
     return True
 
@@ -198,6 +212,12 @@ def harnesses(ctx) -> List[H]:
         hs.append(mk(f"c11_n2_selfloops_{pos}", _edge_args(all2) + ", r0: bool, r1: bool", ["r0 or r1"],
                      f"return order_ok(2, {_edge_dict(all2)}, [r0, r1], lambda i, j: {pos!r})", tier="quick", timeout=100, group="selfloop",
                      covers=f"2 classes incl. self-loops (16 graphs x 3 root subsets), dependency under {pos}"))
+    # class names that are substrings / prefixes of each other
+    for scheme, nm in (("prefix", ["Item", "ItemList", "ItemListView"]), ("suffix", ["Group", "TagGroup", "Tag"]), ("digits", ["N1", "N10", "N100"])):
+        for pos in ("properties", "items", "cls_dependencies"):
+            hs.append(mk(f"c11_n3_names_{scheme}_{pos}", _edge_args(off3) + ", r0: bool, r1: bool, r2: bool", ["r0 or r1 or r2"],
+                         f"return order_ok_named(3, {_edge_dict(off3)}, [r0, r1, r2], lambda i, j: {pos!r}, {nm!r})", tier="quick" if pos == "properties" else "thorough", timeout=400, group="names",
+                         covers=f"3 classes named {nm} (names containing each other), dependency under {pos}"))
     # mixed positions on n=3: position chosen per edge
     mix = "lambda i, j: %r[(2 * i + j) %% %d]" % (POSITIONS, len(POSITIONS))
     hs.append(mk("c11_n3_mixed_a", _edge_args(off3) + ", r0: bool, r1: bool, r2: bool", ["r0 or r1 or r2"],
